@@ -87,7 +87,7 @@ def main():
     offsets = set()
     dense = 3 if quick else 12
     for nb, na in windows.values():
-        for d in range(-dense, dense + 1):
+        for d in list(range(-dense, dense + 1)) + [-600, -300, -121, -119, -90, -45, -10, 10, 45, 90, 119, 121, 300, 600]:
             offsets.add(nb + d)
             offsets.add(na + d)
     for d in (-10 ** 9, -86400 * 365, -86400, -3600, 0, 3600, 86400, 86400 * 365, 10 ** 9):
@@ -142,6 +142,30 @@ def main():
             res.violations.append({"why": f"attestation whose certificate is pinned as the anchor accepted at clock offset {t - T0:+.0f}s, outside "
                                           f"that certificate's validity period (process TZ={TZ})", "offset": t - T0,
                                    "match": {"op": "verify_reg", "clock": "pinned-leaf"}})
+    # a *new* response (new challenge, credential, timestamp, signature) carrying the very same certificates, verified after
+    # the clock has moved past the leaf's validity: "currently valid" is asked at every verification, whatever was seen before
+    for fmtx, chx in (("android-safetynet", ("p256", 2, core.ES256)), ("packed", ("p256", 0, core.ES256)), ("tpm", ("rsa", 0, core.RS256))):
+        set_clock(T0 + 0.5)
+        b1 = _reg.build(fmtx, chx, (), base_time=base, n_intermediates=1 if fmtx != "android-safetynet" else 0)
+        if b1 is None:
+            continue
+        req1, r1 = b1
+        first = cases.run_reg(r1.credential, _reg.expectation(req1, r1.roots))
+        lna1 = r1.chain.leaf.not_valid_after_utc.timestamp()
+        later = datetime.datetime.fromtimestamp(lna1 + 3600, datetime.timezone.utc).replace(microsecond=0)
+        set_clock(later.timestamp() + 0.5)
+        b2 = _reg.build(fmtx, chx, (), base_time=later, reuse_chain=r1.chain, cred_id=b"second-credential-over-the-same-chain",
+                        n_intermediates=1 if fmtx != "android-safetynet" else 0)
+        if b2 is None:
+            continue
+        req2, r2 = b2
+        second = cases.run_reg(r2.credential, _reg.expectation(req2, r1.roots))
+        res.evaluations += 2
+        res.nontrivial.add(("same-chain-later", fmtx, TZ))
+        res.count(f"same-chain-later:{fmtx}:" + corr.kind(first) + "->" + corr.kind(second))
+        if second["k"] == "accept":
+            res.violations.append({"why": f"{fmtx}: a new response over certificates seen (and accepted) before was accepted one hour after the "
+                                          f"leaf certificate's notAfter", "match": {"op": "verify_reg", "clock": "same-chain-later", "fmt": fmtx}})
     if PART == "chain":
         set_clock(time.time())
         if drv:
